@@ -28,10 +28,12 @@ import (
 	"net/http/httptest"
 	"path/filepath"
 	"regexp"
+	"runtime"
 	"sort"
 	"strconv"
 	"strings"
 	"sync"
+	"sync/atomic"
 	"time"
 
 	"github.com/Dash-Industry-Forum/livesim2/cmd/livesim2/app"
@@ -119,7 +121,10 @@ type c09obs struct {
 	AtoMicro                           int64 // ato in exact microseconds (request guard)
 	AtoInf                             bool
 	Outside                            bool // the harness's own statement: not (0 <= ato < segment duration), chunked mode has no chunk duration
-	HeadChunked, HeadWhole, OptChunked int  // status of HEAD / OPTIONS for the same URLs (0 = not asked)
+	Hung                               bool // the watchdog gave up on the request
+	Skipped                            bool // not asked: the watchdog had already given up on several requests
+	BudgetMS                           int64
+	HeadChunked, HeadWhole, OptChunked int // status of HEAD / OPTIONS for the same URLs (0 = not asked)
 	HeadBodyNote                       string
 	Edge                               bool  // inside the range but the offset rounded to ms is the segment duration
 	GuardOK                            bool  // ato >= 0 && ato*1000 < float64(SegmentDurMS), the Go float64 expression of the handler
@@ -464,26 +469,30 @@ func (e *l1env) run(in c09in) (o c09obs) {
 			o.Whole = append(o.Whole, w.Samples...)
 		}
 	}
+	if atomic.LoadInt32(&hangs) >= maxHangs {
+		o.Skipped = true
+		return o
+	}
+	budget := o.budget(in.NowMS)
+	o.BudgetMS = budget.Milliseconds()
 	if in.BrokenBefore > 0 {
-		func() {
-			defer func() { _ = recover() }()
-			bw := &breakingWriter{RecWriter: lib.NewRecWriter(), failAt: in.BrokenBefore}
-			e.ls.Srv.LiveRouter.ServeHTTP(bw, httptest.NewRequest("GET", in.URL, nil))
-		}()
+		rw := lib.NewRecWriter()
+		serveWatched(e.ls.Srv.LiveRouter, httptest.NewRequest("GET", in.URL, nil), rw, func(w http.ResponseWriter) http.ResponseWriter {
+			return &breakingWriter{RecWriter: rw, failAt: in.BrokenBefore}
+		}, budget)
 	}
 	if in.Methods {
 		do := func(method, url string) int {
-			defer func() { _ = recover() }()
-			w := lib.NewRecWriter()
-			e.ls.Srv.LiveRouter.ServeHTTP(w, httptest.NewRequest(method, url, nil))
-			if w.Code == 0 {
-				return 200
+			r, to := serveWatched(e.ls.Srv.LiveRouter, httptest.NewRequest(method, url, nil), lib.NewRecWriter(), nil, budget)
+			if to {
+				return -1
 			}
-			return w.Code
+			return r.Status
 		}
 		o.HeadChunked, o.HeadWhole, o.OptChunked = do("HEAD", in.URL), do("HEAD", in.WholeURL), do("OPTIONS", in.URL)
 	}
-	rec := e.ls.GetRecorded(in.URL)
+	rec, timedOut := serveWatched(e.ls.Srv.LiveRouter, httptest.NewRequest("GET", in.URL, nil), lib.NewRecWriter(), nil, budget)
+	o.Hung = timedOut
 	o.HTTP = rec.Status
 	o.ElapsedMS = rec.EndUnixMS - rec.StartUnixMS
 	switch {
@@ -519,6 +528,109 @@ func (e *l1env) run(in c09in) (o c09obs) {
 		}
 	}
 	return o
+}
+
+// ---- watchdog: every request that the server may pace gets a real-time deadline derived from the
+// property (the last chunk of a segment is due one chunk period after the previous one, at the
+// latest one chunk period after the end of the segment) plus a margin wide enough for a loaded
+// machine. time.Sleep cannot be cancelled, so the handler runs in a goroutine of its own and is
+// abandoned when the deadline passes; after a few such hangs no further paced requests are made.
+const watchdogMarginMS = 8000
+const maxHangs = 3
+
+var hangs int32
+
+type lockedWriter struct {
+	mu sync.Mutex
+	w  http.ResponseWriter
+}
+
+func (l *lockedWriter) Header() http.Header { return l.w.Header() }
+func (l *lockedWriter) WriteHeader(c int)   { l.mu.Lock(); defer l.mu.Unlock(); l.w.WriteHeader(c) }
+func (l *lockedWriter) Write(p []byte) (int, error) {
+	l.mu.Lock()
+	defer l.mu.Unlock()
+	return l.w.Write(p)
+}
+func (l *lockedWriter) Flush() {
+	l.mu.Lock()
+	defer l.mu.Unlock()
+	if f, ok := l.w.(http.Flusher); ok {
+		f.Flush()
+	}
+}
+
+func panicSiteHere() string {
+	pcs := make([]uintptr, 64)
+	n := runtime.Callers(3, pcs)
+	frames := runtime.CallersFrames(pcs[:n])
+	for {
+		fr, more := frames.Next()
+		if strings.Contains(fr.Function, "Dash-Industry-Forum/livesim2") {
+			f := fr.Function
+			if i := strings.LastIndex(f, "/"); i >= 0 {
+				f = f[i+1:]
+			}
+			return f
+		}
+		if !more {
+			return "?"
+		}
+	}
+}
+
+// serveWatched runs h.ServeHTTP(w, req) and gives up after budget. rec is the recorder behind w (w may
+// wrap it); the returned response is a snapshot taken under the writer's lock.
+func serveWatched(h http.Handler, req *http.Request, rec *lib.RecWriter, wrap func(http.ResponseWriter) http.ResponseWriter, budget time.Duration) (out lib.RecResp, timedOut bool) {
+	lw := &lockedWriter{w: rec}
+	if wrap != nil {
+		lw.w = wrap(rec)
+	}
+	done := make(chan string, 1)
+	out.StartUnixMS = time.Now().UnixMilli()
+	go func() {
+		defer func() {
+			if r := recover(); r != nil {
+				done <- fmt.Sprintf("%s: %v", panicSiteHere(), r)
+				return
+			}
+			done <- ""
+		}()
+		h.ServeHTTP(lw, req)
+	}()
+	var pan string
+	select {
+	case pan = <-done:
+	case <-time.After(budget):
+		timedOut = true
+		atomic.AddInt32(&hangs, 1)
+	}
+	out.EndUnixMS = time.Now().UnixMilli()
+	lw.mu.Lock()
+	code := rec.Code
+	if code == 0 {
+		code = http.StatusOK
+	}
+	out.Resp = lib.Resp{Status: code, Header: rec.Hdr.Clone(), Body: append([]byte{}, rec.Body.Bytes()...), Panic: pan}
+	out.Events = append([]lib.WriteEvent{}, rec.Events...)
+	lw.mu.Unlock()
+	if pan != "" {
+		out.Status = 0
+	}
+	return out, timedOut
+}
+
+// budget is the real time a chunked request for this case may take.
+func (o *c09obs) budget(nowMS int64) time.Duration {
+	period := o.SegDurMS - o.AtoMSChk
+	if period < 0 || o.AtoInf {
+		period = 0
+	}
+	wait := o.AvailMS + period + 50 - nowMS // +50: re-segmented audio ends up to one frame after the video segment
+	if wait < 0 {
+		wait = 0
+	}
+	return time.Duration(wait+watchdogMarginMS) * time.Millisecond
 }
 
 // breakingWriter is a client connection that breaks: from the failAt-th Write call on, a Write takes
@@ -560,6 +672,18 @@ func oracle(c *lib.Ctx, id string, in c09in, o c09obs) {
 		site = strings.Replace(site, ": ", ":", 1)
 		fail("panic:"+site, "handler panicked: "+o.Panic)
 		return
+	}
+	if o.Skipped {
+		return
+	}
+	if in.Kind == "l1" && o.Hung {
+		adv := o.AvailMS - o.AtoMSChk
+		fail("chunk-never-delivered", fmt.Sprintf("the chunked response was not complete %d ms (real time) after the request: %d chunk(s) delivered; the last chunk of the segment is due at %d ms at the latest, the request was made at %d ms (advertised availability %d ms)",
+			o.BudgetMS, len(o.Chunks), o.AvailMS+o.SegDurMS-o.AtoMSChk, in.NowMS, adv))
+		return
+	}
+	if in.Kind == "l1" && in.Methods && (o.HeadChunked == -1 || o.HeadWhole == -1 || o.OptChunked == -1) {
+		fail("chunk-never-delivered", fmt.Sprintf("a HEAD/OPTIONS request for the same URL was not answered within %d ms (real time)", o.BudgetMS))
 	}
 	if in.Kind == "l1" && o.HTTP == 200 && strings.HasPrefix(o.Err, "chunk unparsable") {
 		fail("malformed-body", "the chunked response (status 200) is not a sequence of [styp] moof mdat groups: "+o.Err)
@@ -1232,11 +1356,22 @@ func runC09(c *lib.Ctx) error {
 
 	distinct := map[string]bool{}
 	var rtElapsed []int64
+	if h := atomic.LoadInt32(&hangs); h > 0 {
+		c.Res.Notes = append(c.Res.Notes, fmt.Sprintf("watchdog: %d paced request(s) abandoned after their deadline (end of the last chunk + %d ms); after %d of them no further chunked requests were made", h, watchdogMarginMS, maxHangs))
+	}
 	for i, in := range ins {
 		id := strconv.Itoa(i)
 		c.Res.Inputs[id] = in
 		oracle(c, id, in, obs[i])
 		o := obs[i]
+		if o.Skipped {
+			c.Count("skipped-after-hangs")
+			continue
+		}
+		if o.Hung {
+			c.Count("l1:hung")
+			continue
+		}
 		switch o.Status {
 		case 0:
 			c.Count(fmt.Sprintf("%s:served", in.Kind))
@@ -1285,6 +1420,9 @@ func runC09(c *lib.Ctx) error {
 	for s := 0; s*shard < len(ins); s++ {
 		var terms []string
 		for i := s * shard; i < (s+1)*shard && i < len(ins); i++ {
+			if obs[i].Skipped || obs[i].Hung {
+				continue // no complete observation to compare the model with
+			}
 			terms = append(terms, c09term(i, ins[i], obs[i]))
 		}
 		c.WriteCases(fmt.Sprintf("cases_C09_%d.v", s),
@@ -1477,7 +1615,8 @@ func (e *l1env) tcpReset(seed int64) (res intrRes) {
 		return res
 	}
 	srv := httptest.NewServer(e.ls.Srv.Router)
-	defer srv.Close()
+	defer srv.CloseClientConnections() // not Close: it would wait for a handler that is still pacing
+	wireClient := &http.Client{Timeout: time.Duration(5000+watchdogMarginMS) * time.Millisecond}
 	r := a.Rep("V300")
 	in := c09in{Kind: "interrupted", Asset: a.Path, Rep: "V300", Ato: "1.5", Chunkdur: "0.5", Mode: "number", Seg: 5000 + seed%1000, Why: res.how}
 	in.NowMS = a.Ref().LoopE(in.Seg)*1000/a.Ref().Timescale - 1500
@@ -1512,10 +1651,10 @@ func (e *l1env) tcpReset(seed int64) (res intrRes) {
 		hin.NowMS = a.Ref().LoopE(hin.Seg)*1000/a.Ref().Timescale + off
 		hin.fillURLs(a, r, a.Ref())
 		for _, u := range []string{hin.URL, hin.WholeURL} {
-			g, err1 := http.Get(srv.URL + u)
-			h, err2 := http.Head(srv.URL + u)
+			g, err1 := wireClient.Get(srv.URL + u)
+			h, err2 := wireClient.Head(srv.URL + u)
 			if err1 != nil || err2 != nil {
-				res.err = fmt.Sprintf("GET/HEAD over the wire: %v %v", err1, err2)
+				res.err = fmt.Sprintf("chunk-never-delivered: GET/HEAD over a real connection not answered in time: %v %v", err1, err2)
 				continue
 			}
 			gb, _ := io.ReadAll(g.Body)
@@ -1577,18 +1716,15 @@ func (e *l1env) runInterrupted(thorough bool) []intrRes {
 				defer cancel()
 				req = req.WithContext(ctx)
 			}
-			w := lib.NewRecWriter()
-			start := time.Now().UnixMilli()
-			func() {
-				defer func() {
-					if p := recover(); p != nil {
-						res.err = fmt.Sprintf("panic: %v", p)
-					}
-				}()
-				h.ServeHTTP(w, req)
-			}()
-			res.status = w.Code
-			rr := lib.RecResp{Resp: lib.Resp{Status: w.Code, Header: w.Hdr, Body: w.Body.Bytes()}, StartUnixMS: start, Events: w.Events}
+			rr, to := serveWatched(h, req, lib.NewRecWriter(), nil, time.Duration(2500+watchdogMarginMS)*time.Millisecond)
+			start := rr.StartUnixMS
+			if rr.Panic != "" {
+				res.err = "panic: " + rr.Panic
+			}
+			if to {
+				res.err = fmt.Sprintf("chunk-never-delivered: the request had not returned %d ms (real time) after it was made, although its context had ended", 2500+watchdogMarginMS)
+			}
+			res.status = rr.Status
 			for _, p := range rr.Parts() {
 				if p.FlushMS == 0 {
 					continue // the error text the middleware / handler appends after the last chunk
@@ -1627,6 +1763,10 @@ func (e *l1env) evalInterrupted(c *lib.Ctx, rs []intrRes) int {
 			c.Res.Inputs[pid] = pr.in
 			c.Count("after-broken-connection")
 			oracle(c, pid, pr.in, pr.o)
+		}
+		if strings.HasPrefix(r.err, "chunk-never-delivered") {
+			c.Fail(id, "chunk-never-delivered", r.err, r.in)
+			continue
 		}
 		if r.err != "" {
 			c.Fail(id, "interrupted-error", r.err, r.in)
